@@ -125,7 +125,7 @@ POLICY = {
     "ParseCase5.lean": dict(imported=False, km=ALL, replace={}),
     "ParseCase7.lean": dict(imported=False, km=ALL, replace={}),
     "ParseCase.lean": dict(imported=False, km=ALL, replace={}),
-    "ParseCase6.lean": dict(imported=False, km=ALL, replace={
+    "ParseCase6.lean": dict(imported=False, km=set(), replace={      # `genModes_find` TESTS `up m`
         "srcRel": SRCREL, "srcRel_def": "", "popSrc_ce2": "",
         "attr:up_append": "@[grind =] theorem up_appendK (a b : String) : up (a ++ b) = up a ++ up b := up_append a b"}),
     "ParseCaseStmt.lean": dict(imported=False, km=ALL, replace={}),
